@@ -30,6 +30,9 @@ func (r *RelationTuple) FromDataProvider(d TupleData) (*RelationTuple, error) {
 	case nil:
 		return nil, errors.WithStack(ErrNilSubject)
 	case *rts.Subject_Set:
+		if s.Set == nil {
+			return nil, errors.WithStack(ErrNilSubject)
+		}
 		r.SubjectSet = &SubjectSet{
 			Namespace: s.Set.Namespace,
 			Object:    s.Set.Object,
@@ -61,19 +64,23 @@ func (r *RelationTuple) ToProto() *rts.RelationTuple {
 }
 
 func (r *RelationTuple) FromProto(proto *rts.RelationTuple) *RelationTuple {
+	// The getters are nil-safe: an absent tuple or subject yields a tuple without
+	// subject, which validation rejects.
 	r = &RelationTuple{
-		Namespace: proto.Namespace,
-		Object:    proto.Object,
-		Relation:  proto.Relation,
+		Namespace: proto.GetNamespace(),
+		Object:    proto.GetObject(),
+		Relation:  proto.GetRelation(),
 	}
-	switch subject := proto.Subject.Ref.(type) {
+	switch subject := proto.GetSubject().GetRef().(type) {
 	case *rts.Subject_Id:
 		r.SubjectID = pointerx.Ptr(subject.Id)
 	case *rts.Subject_Set:
-		r.SubjectSet = &SubjectSet{
-			Namespace: subject.Set.Namespace,
-			Object:    subject.Set.Object,
-			Relation:  subject.Set.Relation,
+		if subject.Set != nil {
+			r.SubjectSet = &SubjectSet{
+				Namespace: subject.Set.Namespace,
+				Object:    subject.Set.Object,
+				Relation:  subject.Set.Relation,
+			}
 		}
 	}
 
@@ -92,10 +99,12 @@ func (q *RelationQuery) FromDataProvider(d queryData) *RelationQuery {
 		case *rts.Subject_Id:
 			q.SubjectID = pointerx.Ptr(sub.Id)
 		case *rts.Subject_Set:
-			q.SubjectSet = &SubjectSet{
-				Namespace: sub.Set.Namespace,
-				Object:    sub.Set.Object,
-				Relation:  sub.Set.Relation,
+			if sub.Set != nil {
+				q.SubjectSet = &SubjectSet{
+					Namespace: sub.Set.Namespace,
+					Object:    sub.Set.Object,
+					Relation:  sub.Set.Relation,
+				}
 			}
 		}
 	}
